@@ -6,6 +6,44 @@ use crate::prng::Rng;
 use crate::refjson::{self, Mode, Style};
 use crate::tree::{hex, lossy, Tree};
 
+/// every number of the parsed value, seen through the value's own integer and float views:
+/// exact when the integer fits, absent otherwise, the nearest double always
+fn number_views(ctx: &mut Ctx, text: &[u8], info: &dyn Fn() -> String) {
+    fn walk(v: &jsonb::Value, bad: &mut Vec<String>) {
+        match v {
+            jsonb::Value::Number(n) => {
+                let m = crate::tree::Num::from_lib(n);
+                let (i, u, f) = (v.as_i64(), v.as_u64(), v.as_f64());
+                let ef = crate::refops::as_f64(&m);
+                let f_ok = matches!(f, Some(x) if x.to_bits() == ef.to_bits() || (x.is_nan() && ef.is_nan()));
+                let int_ok = m.int().is_none() || (i == crate::refops::as_i64(&m) && u == crate::refops::as_u64(&m) && v.is_i64() == i.is_some() && v.is_u64() == u.is_some());
+                let never_other = i.map_or(true, |x| m.int() == Some(x as i128)) && u.map_or(true, |x| m.int() == Some(x as i128));
+                if !(f_ok && int_ok && never_other) {
+                    bad.push(format!("{}: as_i64={:?} as_u64={:?} as_f64={:?}", m.show(), i, u, f));
+                }
+            }
+            jsonb::Value::Array(a) => a.iter().for_each(|x| walk(x, bad)),
+            jsonb::Value::Object(o) => o.values().for_each(|x| walk(x, bad)),
+            _ => {}
+        }
+    }
+    let r = guard(|| {
+        let mut bad = Vec::new();
+        if let Ok(v) = jsonb::parse_value(text) {
+            walk(&v, &mut bad);
+        }
+        bad
+    });
+    match r {
+        Err(p) => ctx.panic_violation("Value::as_*", &p, info),
+        Ok(bad) => {
+            if let Some(b) = bad.first() {
+                ctx.violation("parse_value/number-views-differ", || format!("{} ; {}", b, info()));
+            }
+        }
+    }
+}
+
 pub fn judge(ctx: &mut Ctx, text: &[u8], class: &str) {
     ctx.evals += 1;
     ctx.count(&format!("class.{}", class));
@@ -32,6 +70,9 @@ pub fn judge(ctx: &mut Ctx, text: &[u8], class: &str) {
             (Ok(Ok(Err(bad))), _) => ctx.violation(&format!("{}/non-utf8", name), || format!("{} ; {}", bad, info())),
             (Ok(Ok(Ok(t))), Ok(p)) => {
                 ctx.count("outcome.accept-accept");
+                if which == 0 && ctx.case_no % 4 == 0 {
+                    number_views(ctx, text, &info);
+                }
                 if p.exact && !t.same_encoding(&p.tree) {
                     let sig = diff_class(&t, &p.tree);
                     ctx.violation(&format!("{}/wrong-value/{}", name, sig), || format!("parsed {} but the text denotes {} ; {}", t.show(), p.tree.show(), info()));
@@ -317,6 +358,22 @@ pub fn run(ctx: &mut Ctx) {
                 dup.extend_from_slice(&body[1..]);
                 judge(ctx, &dup, "duplicate-keys");
             }
+        }
+        // (b2) a wide object (beyond the sizes small-sort shortcuts cover) whose keys arrive in
+        // random order, several of them more than once with different values: the last one wins
+        if i % 16 == 5 {
+            let n = 20 + rng.below(120);
+            let keys: Vec<String> = (0..n).map(|k| if rng.chance(1, 4) { gen::key(&mut rng) } else { format!("k{}", rng.below(n) * 7 + k % 3) }).collect();
+            let mut m = b"{".to_vec();
+            for (j, k) in keys.iter().enumerate() {
+                if j > 0 {
+                    m.push(b',');
+                }
+                refjson::write_string(k, &mut m, &refjson::COMPACT, &mut rng);
+                m.extend_from_slice(format!(":{}", j).as_bytes());
+            }
+            m.push(b'}');
+            judge(ctx, &m, "wide-object-duplicate-keys");
         }
         // (c) single corruptions of the valid text
         for _ in 0..3 {
